@@ -193,7 +193,8 @@ def main(argv=None):
 
     # ---------------- aggregate
     known = load_known()
-    evaluations = len(results)
+    # a case that is a block of elementary inputs (graphs, label patterns, crash executions) reports how many it ran
+    evaluations = sum(int(res.get("eval_count", 1)) for res in results)
     dkeys_nontrivial = set()
     outcomes = {}
     rejected = skipped = states = transitions = 0
@@ -259,6 +260,7 @@ def main(argv=None):
         "exhaustive": (not capped) and (not args.only) and bool(getattr(mod, "EXHAUSTIVE", True)),
         "bound": mod.BOUND(tier) if hasattr(mod, "BOUND") else {},
         "space_size": total_space,
+        "cases_run": len(results),
         "rejected_by_library": rejected,
         "skipped_threshold_adjacent": skipped,
         "distinct_outcomes": len(outcomes),
